@@ -57,9 +57,45 @@ theorem context_write_ok (hs : List Hunk) (hw : ∀ h ∈ hs, h.writable = true)
     obtain ⟨rest, hr⟩ := ih (fun h' hh' => hw h' (by simp [hh']))
     exact ⟨_, by rw [ctxRejectBody, hb, hr]⟩
 
+/-! ### a last line that ends in a bare CR, context format -/
+
+/-- NEW (`mark_as_unterminated`: the `\ No newline at end of file` marker keeps the CR of the line before it).
+    **Context round trip, exact, for the wider class of hunks** of C13U `unified_roundtrip_cr` (`Unified.writableCR`: only
+    a line that ends in LF must not end in CR): the last line of a side, without newline and ending in a bare CR, is
+    written `content LF` + marker — a CR LF terminated line in the text — and read back with its CR.
+    `context_roundtrip` is the special case of hunks none of whose lines ends in CR. -/
+theorem context_roundtrip_cr (hs : List Hunk) (hne : hs ≠ []) (hw : ∀ h ∈ hs, Unified.writableCR h = true)
+    (bytes : Bytes) (hb : ctxRejectBody hs = .ok bytes) (lineNo : Nat) (fuel : Nat) (hf : hs.length < fuel) :
+    ∃ hs' par', parseContextBody fuel { s := { rest := splitLines bytes }, lineNo := lineNo } [] = .ok (hs', par') ∧
+      hs'.length = hs.length ∧
+      (∀ i (hi : i < hs.length) (hi' : i < hs'.length),
+        oldOf hs'[i].lines = oldOf hs[i].lines ∧ newOf hs'[i].lines = newOf hs[i].lines ∧
+        hs'[i].old = hs[i].old ∧ hs'[i].new = hs[i].new) ∧
+      par'.s.rest = [] :=
+  Context.context_roundtrip_exact_cr_of Unified.number_roundtrip hs hne hw bytes hb lineNo fuel hf
+
+/-- hunks whose last old / new / context line ends in a bare CR: in the wider class, not in the old one -/
+def bareCrHunks : List Hunk :=
+  [⟨⟨1, 1⟩, ⟨1, 1⟩, [⟨MINUS, ⟨[97, CR], .none⟩⟩, ⟨PLUS, ⟨[98], .lf⟩⟩]⟩,
+   ⟨⟨1, 2⟩, ⟨1, 2⟩, [⟨SP, ⟨[99], .lf⟩⟩, ⟨MINUS, ⟨[97], .lf⟩⟩, ⟨PLUS, ⟨[98, CR], .none⟩⟩]⟩,
+   ⟨⟨1, 1⟩, ⟨1, 1⟩, [⟨SP, ⟨[99, CR], .none⟩⟩]⟩]
+
+example : ∀ h ∈ bareCrHunks, Unified.writableCR h = true ∧ h.writable = false := by decide
+
+-- the same by running the model (compiled evaluation)
+#guard (match ctxRejectBody bareCrHunks with
+  | .ok b =>
+    (match parseContextBody 10 { s := { rest := splitLines b } } [] with
+     | .ok (hs, par') =>
+         hs.map (fun h => (oldOf h.lines, newOf h.lines, h.old, h.new)) ==
+           bareCrHunks.map (fun h => (oldOf h.lines, newOf h.lines, h.old, h.new)) && par'.s.rest.isEmpty
+     | _ => false)
+  | _ => false)
+
 end PatchModel.C13
 
 #print axioms PatchModel.C13.context_roundtrip
 #print axioms PatchModel.C13.context_roundtrip_sameChange
 #print axioms PatchModel.C13.context_final_newline_matters
 #print axioms PatchModel.C13.context_write_ok
+#print axioms PatchModel.C13.context_roundtrip_cr
